@@ -252,7 +252,12 @@ func (s *State) AddNotice(userID *uint32, noticeType NoticeType, key string, opt
 
 	now := options.Time
 	if now.IsZero() {
-		now = timeNow()
+		// Strip the monotonic clock reading: notice times are stored, served
+		// and compared (by clients, via "after") as wall clock times, so the
+		// check below must compare wall clock times too. Otherwise a wall
+		// clock that was set back while snapd is running yields notices
+		// with times before those already handed out.
+		now = timeNow().Round(0)
 		/**
 		 * Ensure that two notices never have the same sent time.
 		 *
